@@ -1,0 +1,45 @@
+//go:build verif
+
+// Contracts (machine-checked specifications) for the adapter controllers, read by /verif's govc.
+// This file contains comments only and compiles to nothing with or without the tag.
+
+package adapter
+
+// ---------------------------------------------------------------------------------------------
+// Only returning native tokens, under the coin ICS-20 credits (C16)
+// ---------------------------------------------------------------------------------------------
+
+// What remains of a denomination after removing the voucher prefix of (port, channel).
+//@ macro unprefixed(denom, port, chan) = substr(denom, strlen(denomPrefix(port, chan)), strlen(denom) - strlen(denomPrefix(port, chan)))
+
+//@ func RecoverNativeDenom(denom, sourcePort, sourceChannel) (result, err)
+//@   ensures[C16] err == nil ==> prefixof(denomPrefix(sourcePort, sourceChannel), denom)
+//@   ensures[C16] err == nil ==> result == unprefixed(denom, sourcePort, sourceChannel) && tracePath(result) == ""
+//@   ensures[C16] !prefixof(denomPrefix(sourcePort, sourceChannel), denom) ==> err != nil
+//@   ensures[C16] tracePath(unprefixed(denom, sourcePort, sourceChannel)) != "" ==> err != nil
+
+// The ICS-20 packet data as a function of the packet bytes. The codec (gogoproto JSON) is outside the
+// verifier's reach: this contract is assumed, and says only that decoding is a function of the bytes.
+//@ smt (declare-fun isICS20 (BytesV) Bool)
+//@ smt (declare-fun ics20Of (BytesV) T_cosmos_ibc_go_v8_modules_apps_transfer_types_FungibleTokenPacketData)
+//@ func GetICS20PacketData(data) (pkt, err)
+//@   opaque
+//@   ensures[base] (err == nil) == isICS20(bytesof(data))
+//@   ensures[base] err == nil ==> pkt == ics20Of(bytesof(data))
+
+//@ func (p *IBCParser) ParsePayload(memoBz) (payload, err)
+//@   requires[base] p != nil
+//@   ensures[base] err == nil ==> payloadOK(payload)
+
+// ParsePacket: on success the coin is the unprefixed (Noble-side) denomination, which is native, with
+// the amount the ICS-20 data states; "not for orbiter" is reported only for non-ICS-20 data or a
+// receiver string other than the module address.
+//@ macro ibcPkt(cc) = cast(cc, "*types/component/adapter.IBCCrossChainPacket")
+//@ macro dataOf(cc) = ics20Of(bytesof(ibcPkt(cc).data))
+//@ func (a *IBCAdapter) ParsePacket(ccPacket) (result, err)
+//@   requires[base] a != nil && a.parser != nil
+//@   ensures[base] err == nil ==> result != nil && payloadFieldsOK(result.Payload) && !isnil(result.Coin.Amount)
+//@   ensures[C16]  err == nil ==> istype(ccPacket, "*types/component/adapter.IBCCrossChainPacket") && ibcPkt(ccPacket) != nil && isICS20(bytesof(ibcPkt(ccPacket).data))
+//@   ensures[C16]  err == nil ==> prefixof(denomPrefix(ibcPkt(ccPacket).sourcePort, ibcPkt(ccPacket).sourceChannel), dataOf(ccPacket).Denom)
+//@   ensures[C16]  err == nil ==> result.Coin.Denom == unprefixed(dataOf(ccPacket).Denom, ibcPkt(ccPacket).sourcePort, ibcPkt(ccPacket).sourceChannel) && tracePath(result.Coin.Denom) == ""
+//@   ensures[C16]  err == nil ==> okInt(dataOf(ccPacket).Amount) && val(result.Coin.Amount) == parseInt(dataOf(ccPacket).Amount)
